@@ -201,13 +201,26 @@ def check(run):
             run.violation("R4", f.where, f"{f.name} does not use the shared STL record dtypes: reader and writer can disagree on the layout",
                           key=key_of("C08-R4", f.name))
     # the fields the writer fills and the reader reads
-    wt, rt = ast.unparse(exs.node), ast.unparse(ld.node)
+    # (the record array is whatever local is created with dtype=_stl_dtype; its name is irrelevant)
+    def record_fields(fn, ctx):
+        recs = {st.targets[0].id for st in ast.walk(fn.node) if isinstance(st, ast.Assign) and isinstance(st.targets[0], ast.Name)
+                and re.search(r"dtype=_stl_dtype\b", ast.unparse(st.value))}
+        return {n.slice.value for n in ast.walk(fn.node) if isinstance(n, ast.Subscript) and isinstance(n.ctx, ctx) and isinstance(n.value, ast.Name)
+                and n.value.id in recs and isinstance(n.slice, ast.Constant) and isinstance(n.slice.value, str)}
+
+    written, read = record_fields(exs, ast.Store), record_fields(ld, ast.Load)
     for field in ("normals", "vertices"):
-        ok = f"packed['{field}']" in wt and f"blob['{field}']" in rt
+        ok = field in written and field in read
         run.instance("R4", exs.where, f"record field `{field}` written and read", ok)
         if not ok:
             run.violation("R4", exs.where, f"STL record field `{field}` is not both written and read", key=key_of("C08-R4", "field", field))
-    ok = "header['face_count'] = len(mesh.faces)" in wt
+    # the header record (created with dtype=_stl_dtype_header) receives the number of faces of the mesh that is written
+    hdr = {st.targets[0].id for st in ast.walk(exs.node) if isinstance(st, ast.Assign) and isinstance(st.targets[0], ast.Name)
+           and re.search(r"dtype=_stl_dtype_header\b", ast.unparse(st.value))}
+    mp0 = exs.params[0]
+    ok = any(isinstance(st, ast.Assign) and isinstance(st.targets[0], ast.Subscript) and isinstance(st.targets[0].value, ast.Name)
+             and st.targets[0].value.id in hdr and ast.unparse(st.targets[0].slice) == "'face_count'"
+             and ast.unparse(st.value) in (f"len({mp0}.faces)", f"{mp0}.faces.shape[0]", f"len({mp0}.triangles)") for st in ast.walk(exs.node))
     run.instance("R4", exs.where, "header face_count = number of faces written", ok)
     if not ok:
         run.violation("R4", exs.where, "export_stl does not store the face count it writes in the header", key=key_of("C08-R4", "face_count"))
